@@ -14,7 +14,7 @@ RULE = ("case 'sig' = (format out of dbc, dbf, sym, kcd, json, xls, arxml; for j
         "Non-trivial = distinct case with a Motorola signal or a signal wider than one bit.")
 PARTIAL = ["only the field kernels (position and identifier numbers) carry theorems; file assembly, XML plumbing and reference "
            "resolution are tied by this correspondence check only",
-           "multi-bus clusters (KCD/ARXML with 2..3 buses) are not generated yet",
+           "multi-bus files (KCD/ARXML, 2..3 buses) are compared per bus on the layout normal form (case 'bus')",
            "ARXML: versions 4.1.0 and 3.2.3 of the writer"]
 ASSUMPTIONS = ["SYM: the multiplexer is renamed <frame>_MUX by design and static signals of multiplexed messages are repeated per group",
                "XLS: identifier numbers unique across standard/extended, value-table keys below 2^53 (cells hold doubles)", "ARXML: matrix-unique signal names, no ECU both sends and receives a frame"]
@@ -24,6 +24,8 @@ CORRESPONDENCE = "stored position numbers and re-read layout == CanVerif.emitPos
 
 def gen(rng, tier, shard, nshards, rich=False):
     total = {"quick": 1000, "thorough": 8000}[tier] // nshards + 1
+    for _ in range(total // 12 + 1):
+        yield gen_bus(rng)
     for _ in range(total):
         fmt = rng.choice(R.FORMATS)
         wn, rn = "lsb", "lsb"
@@ -42,7 +44,36 @@ def gen(rng, tier, shard, nshards, rich=False):
                                           "x": fmt in ("dbc", "dbf", "sym", "kcd", "json"), "lvl": "full" if rich else "layout"}}
 
 
+def gen_bus(rng):
+    fmt = rng.choice(["kcd", "arxml"])
+    buses = []
+    for name in ("BusA", "BusB", "BusC")[:rng.randint(2, 3)]:
+        d = R.gen_case_matrix(rng, fmt, False)
+        for f in d["frames"]:
+            f["name"] = name + "_" + f["name"]           # short names are unique within the file (AUTOSAR packages)
+            for s in f["signals"]:
+                s["name"] = name + "_" + s["name"]
+        buses.append([name, d])
+    return {"op": "bus", "c": {"fmt": fmt, "names": [b[0] for b in buses], "buses": buses}}
+
+
+def observe_bus(c):
+    import canmatrix.formats
+    from lib import matrices as M
+    try:
+        dbs = {name: M.build(d) for name, d in c["buses"]}
+        b = M.NamedBytes()
+        canmatrix.formats.dump(dbs, b, c["fmt"])
+        got, _ = M.import_bytes(b.getvalue(), c["fmt"])
+        return {"keys": sorted(got.keys()),
+                "same": [name in got and M.normal_form(dbs[name], "layout") == M.normal_form(got[name], "layout") for name in dbs]}
+    except Exception as e:  # noqa
+        return {"exc": type(e).__name__ + ": " + str(e)[:160]}
+
+
 def neighbours(case, rng, shard, nshards):
+    if case["op"] == "bus":
+        return
     c = case["c"]
     for _ in range(6 // nshards + 1):
         desc = R.gen_case_matrix(rng, c["fmt"], False)
@@ -54,6 +85,8 @@ def neighbours(case, rng, shard, nshards):
 
 def observe(case):
     c = case["c"]
+    if case["op"] == "bus":
+        return observe_bus(c)
     r = R.run(c["m"], c["fmt"], c["wn"], c["rn"])
     if r["exc"]:
         if case["op"] == "frame":
@@ -75,6 +108,8 @@ def observe(case):
 
 
 def project(impl):
+    if "keys" in impl or ("exc" in impl and "back" not in impl and "got" not in impl):
+        return {}
     if "got" in impl and "back" not in impl:
         return {}
     return {"emit": impl.get("emit"), "back": impl.get("back"), "type": impl.get("type")}
@@ -87,6 +122,9 @@ def to_model_case(case):
 def features(case, impl):
     c = case["c"]
     yield "op=" + case["op"]
+    if case["op"] == "bus":
+        yield "buses=%s/%d" % (c["fmt"], len(c["names"]))
+        return
     yield "fmt=" + c["fmt"] + ("/" + c["wn"] + ">" + c["rn"] if c["fmt"] in ("json", "xls") else "/" + c["wn"] if c["wn"] == "3.2.3" else "")
     if case["op"] == "sig":
         d = c["sig"]
@@ -96,6 +134,8 @@ def features(case, impl):
 
 
 def nontrivial(case, impl):
+    if case["op"] == "bus":
+        return True
     return case["op"] == "sig" and (not case["c"]["sig"][3] or case["c"]["sig"][2] > 1)
 
 
